@@ -9,7 +9,9 @@
 // (d) PreConfirmedStateAt / PreConfirmedStateBeforeIndexAt against ref.State(base) + the view's
 // diffs, (e) transaction / receipt lookups. The base state is the canonical model
 // (TestPropStorageModel, TestRaceConcurrentReaders) or a real Blockchain (TestPropOverlay).
-// poller_test.go drives the same oracles through the real Poller.
+// poller_test.go drives the same oracles through the real Poller. stress_test.go puts schedule
+// pressure on the published chain pointer (one writer, thousands of publishes per case, spinning
+// readers whose every view is checked against the chains published while their call ran).
 package c20
 
 import (
